@@ -99,9 +99,9 @@ def main():
         version=1,
         setup_cmd="./setup.sh",
         hooks=dict(guard="GM2CALC_VERIF",
-                   enable="every check compiles /repo's current working tree itself with -DGM2CALC_VERIF (lib/build.py; configurations plain, san, tsan, fuzz); no source-level hooks were needed",
+                   enable="every check compiles /repo's current working tree itself with -DGM2CALC_VERIF (lib/build.py; configurations plain, san, tsan, fuzz). One source-level hook: gm2calc::verif::after_convert_me2, a function pointer (null by default) that convert_to_onshell() calls right after the fit of me2(1,1); the C05 harness uses it to observe whether that fit had converged (mechanism of the known Yukawa-lag finding)",
                    baseline_off_cmd="cmake --build /repo/_build && ctest --test-dir /repo/_build -j8 --timeout 900",
-                   source_commits=[], add_only=True),
+                   source_commits=["f2758bf"], add_only=True),
         engines=[dict(name="vcheck", path="/verif/vcheck", serves_properties=sorted(CHECKS),
                       kind_free_text="python driver + C++ harnesses linked against a sanitizer build of the working tree; oracles over recorded event logs")],
         checks=checks,
